@@ -212,8 +212,7 @@ theorem step6_indexSet_err {ma mb mc : Value} {e : Err} (h : CodeAt C i (.indexS
 
 /-! ### calls and returns -/
 
-/-- `Call argc` with the callee on top of the arguments -/
-theorem step6_call {argc fip nlc : Nat} {ms : List Value} (h : CodeAt C i (.call argc :: rest)) (hlen : ms.length = argc) :
+theorem step6_call_raw {argc fip nlc : Nat} {ms : List Value} (h : CodeAt C i (.call argc :: rest)) (hlen : ms.length = argc) :
     (argc > nlc → ∃ s2, step C (mk6 s0 i below locs ((ops ++ ms.toArray).push (.fn fip nlc)) g l fr m out) = .error .argument s2 ∧ s2.out = out) ∧
     (argc ≤ nlc → (∃ s2, step C (mk6 s0 i below locs ((ops ++ ms.toArray).push (.fn fip nlc)) g l fr m out) = .error .index s2) ∨
       step C (mk6 s0 i below locs ((ops ++ ms.toArray).push (.fn fip nlc)) g l fr m out) =
@@ -234,6 +233,21 @@ theorem step6_call {argc fip nlc : Nat} {ms : List Value} (h : CodeAt C i (.call
       simp only [mk6, call_stack]
       congr 2
       simp [← hlen]; omega
+
+/-- `Call argc` with the callee on top of the arguments: wrong number of arguments, the stack/frame limit
+    (`AtLimit`), or the callee's activation -/
+theorem step6_call {argc fip nlc : Nat} {ms : List Value} (h : CodeAt C i (.call argc :: rest)) (hlen : ms.length = argc) :
+    (argc > nlc → ∃ s2, step C (mk6 s0 i below locs ((ops ++ ms.toArray).push (.fn fip nlc)) g l fr m out) = .error .argument s2 ∧ s2.out = out) ∧
+    (argc ≤ nlc → AtLimit C (mk6 s0 i below locs ((ops ++ ms.toArray).push (.fn fip nlc)) g l fr m out) ∨
+      step C (mk6 s0 i below locs ((ops ++ ms.toArray).push (.fn fip nlc)) g l fr m out) =
+        .next (mk6 s0 fip (below ++ locs ++ ops) (ms.toArray ++ Array.replicate (nlc - argc) .null) #[] g l
+          ({ ip := i + 2, bp := below.size } :: fr) m out)) := by
+  obtain ⟨h1, h2⟩ := step6_call_raw (s0 := s0) (below := below) (locs := locs) (ops := ops) (g := g) (l := l) (fr := fr)
+    (m := m) (out := out) (fip := fip) (nlc := nlc) (ms := ms) h hlen
+  refine ⟨h1, fun hle => ?_⟩
+  rcases h2 hle with ⟨s2, hs2⟩ | hn
+  · exact .inl (AtLimit.of_call_error (by rw [mk6_ip]; exact h.head) (by rw [mk6_stack]; exact pop_frame _ _ _ _) hle hs2)
+  · exact .inr hn
 
 theorem step6_call_nonfn {argc : Nat} {v : Value} (h : CodeAt C i (.call argc :: rest)) (hv : ∀ a b, v ≠ .fn a b) :
     ∃ s2, step C (mk6 s0 i below locs (ops.push v) g l fr m out) = .error .type s2 ∧ s2.out = out := by
